@@ -1,7 +1,8 @@
 (* C17 - The tool's knowledge tables agree with each other.
    Only statements; every proof is `exact <lemma from proofs/>`. *)
 From VModel Require Import TablesSpec.
-From VProofs Require Import TablesProofs.
+From VProofs Require Import TablesProofs PolicyPeerProofs.
+From VModel Require Import PolicyPeer.
 Open Scope string_scope. Open Scope list_scope.
 
 Theorem c17_policies_known :
@@ -49,3 +50,13 @@ Proof. exact (conj ssh2_keys_nodup ssh1_keys_nodup). Qed.
 
 Theorem c17_nonvacuous : builtin_policies <> [].
 Proof. exact builtin_nonempty. Qed.
+
+(* a peer configured exactly per a built-in policy shows no failure in a standard audit (through the report model of
+   C01-C04: rating lookup, Terrapin post-processing in the policy's role, status fold) *)
+Theorem c17_policy_peer_no_failure :
+  forall p, In p builtin_policies -> rp_status (report_of (peer_of_policy p) ssh2_db) <> exit_FAILURE.
+Proof. exact policy_peer_no_failure_thm. Qed.
+
+(* ... and the key / modulus sizes the policies list are not small enough for a probe-phase failure note *)
+Theorem c17_policy_sizes_not_failing : policy_sizes_failing = [].
+Proof. exact policy_sizes_failing_nil. Qed.
